@@ -29,6 +29,14 @@ CHECKS = {
           'sched', 'DESIGN.md section 4 C17',
           'Store/drain histories x schedules x six strategies x lag {0,5} x bounded/unbounded with a virtual clock, followed by draining to exhaustion; strategy contracts are part of the sequential spec. One genuine defect (bucketmax choose/pop race) found and fixed.',
           'Pass = documented "loop of the cache"; ties may be broken either way.'),
+  'C03': ('fault_enumeration', 'fault-injecting, schedule-generating property-based testing against an in-memory backend; exhaustive <=2-fault placement in the thorough tier',
+          'sched', 'DESIGN.md section 4 C03',
+          'The real writeForever() runs as the writer thread against a receiving thread under generated schedules; every exists/create/write call of the in-memory plugin can be made to fail by a generated (thorough: exhaustively enumerated <=2-fault) plan; oracle over backend call log + counters + logged errors: each drained batch is written exactly once for its own metric after the file exists, or is accounted for.',
+          'Backend failures are exceptions raised by the plugin call; exists() does not lie; line granularity.'),
+  'C04': ('exploration', 'schedule- and stop-placement-generating property-based testing (exhaustive stop placement for fixed workloads in the thorough tier)',
+          'sched', 'DESIGN.md section 4 C04',
+          'Orderly stop (carbon\'s own shutdown trigger + running=False) placed at generated positions of the receiver program and generated interleavings with the writer loop, across strategies, lag and rate-limit settings; after writeForever() returns the cache must be empty and every value written once or accounted for. One genuine defect found and fixed.',
+          'Thread-pool join modelled by running the writer thread to completion; virtual clock.'),
 }
 
 PENDING_REASON = 'check not built yet in this session (design in DESIGN.md section 4); will be claimed once its check is quiet on the unchanged tree and catches its mutants'
